@@ -10,5 +10,6 @@ func init() {
 		e.RParenSync()
 		e.RCommentsNotShared()
 		e.RAstOrder()
+		e.RFileExtent()
 	})
 }
